@@ -278,7 +278,17 @@ def main(argv: list[str]) -> int:
     else:
         ctx = mp.get_context("fork")
         with ctx.Pool(min(jobs, len(work)), initializer=_init_worker, initargs=(pid, tier)) as pool:
-            for _, r in pool.imap_unordered(_run_one, work, chunksize=1):
+            it = pool.imap_unordered(_run_one, work, chunksize=1)
+            # A worker stuck inside a C-level call cannot be interrupted by its own alarm; the parent
+            # gives up when no shard result arrives for longer than the shard watchdog allows.
+            patience = chk.shard_timeout(tier) + 300
+            for _ in range(len(work)):
+                try:
+                    _, r = it.next(timeout=patience)
+                except mp.TimeoutError:
+                    pool.terminate()
+                    print(f"HARNESS-ERROR property={pid}: no shard finished within {patience}s (worker stuck in native code?); no verdict")
+                    return 2
                 (harness_errors if isinstance(r, tuple) else results).append(r)
 
     if harness_errors:
